@@ -14,11 +14,14 @@ open Cel Cel.Lexer Cel.Parser Cel.Lemmas.ParserSteps
 
 /-! ## the first token -/
 
-/-- the first token is an identifier, a numeral or an opening parenthesis -/
+/-- the first token is an identifier, a numeral, an opening parenthesis, or the opening bracket /
+brace of a list / map literal -/
 inductive HeadOk : Toks → Prop
   | ident (n : Str) (r : Toks) : HeadOk (.ident n :: r)
   | int (d : Str) (r : Toks) : HeadOk (.int d :: r)
   | paren (r : Toks) : HeadOk (.sym "(" :: r)
+  | brack (r : Toks) : HeadOk (.sym "[" :: r)
+  | brace (r : Toks) : HeadOk (.sym "{" :: r)
 
 theorem HeadOk.append {ts : Toks} (h : HeadOk ts) (r : Toks) : HeadOk (ts ++ r) := by
   cases h <;> constructor
@@ -32,16 +35,18 @@ theorem HeadOk.runLen_neg {ts : Toks} (h : HeadOk ts) : runLen "-" ts = 0 := by
 /-! ## what may follow a primary -/
 
 /-- token lists that may follow a primary inside a member expression: a stop token, a field
-selection (not a method call) followed by such a list, or an index -/
+selection (not a method call) followed by such a list, a method call, or an index -/
 inductive SufRest : Toks → Prop
   | stop (r : Toks) : 0 < lvl (hd r) → SufRest r
   | sel (f : Str) (r : Toks) : SufRest r → SufRest (.sym "." :: .ident f :: r)
+  | call (f : Str) (r : Toks) : SufRest (.sym "." :: .ident f :: .sym "(" :: r)
   | idx (r : Toks) : SufRest (.sym "[" :: r)
 
 theorem SufRest.hd_ne {r : Toks} (h : SufRest r) : hd r ≠ "(" ∧ hd r ≠ "{" := by
   cases h with
   | stop r hl => have := lvl_pos hl; exact ⟨this.2.2.2, this.2.2.1⟩
   | sel f r _ => simp
+  | call f r => simp
   | idx r => simp
 
 theorem messageHead_sufRest {r : Toks} (h : SufRest r) : ∀ (n : Str) (k : Nat), messageHead k (.ident n :: r) = none := by
@@ -52,6 +57,11 @@ theorem messageHead_sufRest {r : Toks} (h : SufRest r) : ∀ (n : Str) (k : Nat)
     cases k with
     | zero => rfl
     | succ k => simp [messageHead, ih f k]
+  | call f r =>
+    intro n k
+    cases k with
+    | zero => rfl
+    | succ k => simp [messageHead, messageHead_ident k f (.sym "(" :: r) (by simp) (by simp)]
   | idx r => intro n k; exact messageHead_ident k n _ (by simp) (by simp)
 
 theorem parsePrimary_ident' {f : Nat} {n : Str} {r : Toks} (h : SufRest r) :
@@ -263,6 +273,20 @@ theorem parsesAt_neg {fa : Nat} {A : Toks} {ea : Expr} (ha : ParsesAt 7 fa A ea)
   cases hh with
   | int d r => exact absurd rfl (hni d r)
   | paren r => exact parsesAt_neg_paren ha
+  | brack r =>
+    intro g rest hg hl
+    obtain ⟨g, rfl⟩ : ∃ g', g = g' + 1 := ⟨g - 1, by omega⟩
+    have hA : parseMember (g + 1) (.sym "[" :: (r ++ rest)) = some (ea, rest) := ha g rest (by omega) (by omega)
+    show parseUnary (g + 1 + 1) (.sym "-" :: .sym "[" :: (r ++ rest)) = _
+    rw [parseUnary_succ]
+    simp [runLen, hA]
+  | brace r =>
+    intro g rest hg hl
+    obtain ⟨g, rfl⟩ : ∃ g', g = g' + 1 := ⟨g - 1, by omega⟩
+    have hA : parseMember (g + 1) (.sym "{" :: (r ++ rest)) = some (ea, rest) := ha g rest (by omega) (by omega)
+    show parseUnary (g + 1 + 1) (.sym "-" :: .sym "{" :: (r ++ rest)) = _
+    rw [parseUnary_succ]
+    simp [runLen, hA]
   | ident n r =>
     intro g rest hg hl
     obtain ⟨g, rfl⟩ : ∃ g', g = g' + 1 := ⟨g - 1, by omega⟩
